@@ -257,6 +257,11 @@ func c18Run(c core.Case) *core.Result {
 	var less func(a, b *sam.Record) bool
 	if order == 3 {
 		less = func(a, b *sam.Record) bool { return a.MapQ < b.MapQ }
+	} else if order < 3 && rng.Intn(2) == 0 {
+		// a less that contradicts the declared order; the documentation says
+		// it is ignored for every declared order other than unknown
+		less = func(a, b *sam.Record) bool { return a.MapQ > b.MapQ || (a.MapQ == b.MapQ && a.Name > b.Name) }
+		r.Count("declared_order_with_decoy_less", 1)
 	}
 	var m *bam.Merger
 	var err error
